@@ -69,16 +69,18 @@ def selection_table(ctx: Ctx, rep: Report) -> Dict[Tuple[str, str, int], Tuple[s
     platforms = ctx.folder.const("helpers", "PLATFORMS")
     majors: Set[int] = set()
     pred_calls: Set[str] = set()
+    for x in ast.walk(fn.node):
+        if isinstance(x, ast.Compare) and "self.version.major" in (src(x.left), src(x.comparators[0])):
+            for c in [x.left] + list(x.comparators):
+                v = ctx.folder.fold(c, fn.module)
+                if isinstance(v, int) and not isinstance(v, bool):
+                    majors.add(v)
     for p in paths:
         for test, _ in p.atoms:
             for x in ast.walk(test):
-                if isinstance(x, ast.Compare) and src(x.left) == "self.version.major":
-                    for c in x.comparators:
-                        v = ctx.folder.fold(c, fn.module)
-                        if isinstance(v, int):
-                            majors.add(v)
                 if isinstance(x, ast.Call) and isinstance(x.func, ast.Attribute) and src(x.func.value) == "self" and not x.args:
                     pred_calls.add(src(x))
+    majors.add(15)  # the property names the IOS 15 tables: the version is asked for even when the code no longer compares it
     other = 0
     while other in majors:
         other += 1
@@ -91,15 +93,29 @@ def selection_table(ctx: Ctx, rep: Report) -> Dict[Tuple[str, str, int], Tuple[s
                 for pc in pred_calls:
                     symenv[pc] = _inline_pred(ctx, fn, pc, symenv)
                 feas = []
+                unfoldable = False
                 for p in paths:
                     fz = feasible(p, ctx.folder, fn, symenv)
                     if fz is None:
-                        raise AnalysisError(f"PortName.names: a branch condition is not foldable for {proto}/{plat}/{major}")
+                        unfoldable = True
+                        break
                     if fz:
                         feas.append(p)
                 combo = f"protocol={proto} platform={plat} version.major={'other' if major == other else major}"
-                if len(feas) != 1:
-                    raise AnalysisError(f"PortName.names: {len(feas)} feasible paths for {combo} (expected 1)")
+                if unfoldable or len(feas) != 1:
+                    # the selection is computed (a table of rows scanned in a loop, locals re-bound on the way): evaluate
+                    # the body with the three settings fixed and look up which module table the result is
+                    val = ctx.folder.eval_body(fn, symenv)
+                    if not known(val):
+                        raise AnalysisError(f"PortName.names: the selection for {combo} is neither a single path nor evaluable")
+                    menv = ctx.folder.module_env(fn.module)
+                    tname = next((k for k, v in sorted(menv.items()) if isinstance(v, dict) and v and v == val and k.isupper()), None)
+                    if tname is None or not isinstance(val, dict) or not val:
+                        rep.violation("PortName.names", f"selection for {combo} evaluates to {('a dict of %d names' % len(val)) if isinstance(val, dict) else repr(val)[:40]}", "no non-empty name table of the module is selected for this platform/protocol/version: names of this platform are neither parsed nor rendered", where(fn))
+                        continue
+                    sel[(proto, plat, major)] = (tname, val)
+                    rep.ok(f"names() {combo}", f"evaluates to {tname} ({len(val)} names)", where=where(fn))
+                    continue
                 ret = resolve_local(feas[0].ret, feas[0].env)
                 tname = _table_name(ret)
                 if tname is not None and ctx.folder.try_const("port_name", tname) is UNKNOWN:
@@ -315,7 +331,11 @@ def run(ctx: Ctx, rep: Report, tier: str) -> None:  # noqa: C901
     # identical tables under another name (UDP_NAME_PORT__NXOS = UDP_NAME_PORT__BASE) count as selected
     dead = [d for d in sorted(defined - selected) if not any(penv[d] == penv[s2] for s2 in selected)]
     for d in dead:
-        rep.note(f"R09.4 table {d} is defined but never selected by PortName.names() (dead data unless it only feeds other tables)")
+        if d.endswith("__BASE"):
+            rep.note(f"R09.4 table {d} is defined but never selected by PortName.names() (dead data unless it only feeds other tables)")
+        else:
+            rep.instance()
+            rep.violation("PortName.names", f"table {d}", f"the platform/version table {d} is never selected for any platform, protocol and version: its names are neither read nor written where they belong (a version or platform distinction was lost)", "cisco_acl/port_name.py", inp="PortName(protocol='tcp', platform='ios', version='16').names()")
 
     # ---------------------------------------------------------------- R09.1 standard numbers
     rep.rule("R09.1")
